@@ -195,6 +195,7 @@ class ParserEngine(ParserCore, CanParse):
         self.set_left_recursion_guard(key)
 
         self.states.new()
+        depth = len(self.states.state_stack)
         try:
             self.next_token(ri)
 
@@ -207,6 +208,9 @@ class ParserEngine(ParserCore, CanParse):
 
             return result
         except FailedSemantics as e:
+            # NOTE: options, optionals and closures only unwind their states on
+            #   FailedParse: drop what a FailedSemantics left behind in this rule
+            del self.states.state_stack[depth:]
             ex = self.newexcept(str(e))
             self.memoize(key, ex)
             raise ex from e
